@@ -306,13 +306,31 @@ def run_case(case):
                 cfg_b, results_b, _ = synthetic(gen.rng_for(case["seed"], "C18sib", case["idx"]))
             save_footprints_to_netcdf(results_b, cfg_b, sibling)
             counters["sibling_exports"] = 1
-        ds = load_footprints_from_netcdf(path)
+        after_load = ["nothing", "nothing", "file_removed", "cwd_changed"][case["idx"] % 4] if not sibling and not case.get("_second") and not case.get("_path") else "nothing"
+        load_path = path
+        if after_load == "cwd_changed":
+            load_path = os.path.relpath(path)          # addressed relatively, as scripts do
+        ds = load_footprints_from_netcdf(load_path)
+        # what happens to the path after the load is not the loaded set's business: the file is deleted (a temporary export), or the
+        # process moves to another directory - the fields that are read afterwards are those of the set that was saved
+        home_ = os.getcwd()
+        if after_load == "file_removed":
+            os.unlink(path)
+        elif after_load == "cwd_changed":
+            os.makedirs("elsewhere", exist_ok=True)
+            os.chdir("elsewhere")
+        counters[f"after_load:{after_load}"] = counters.get(f"after_load:{after_load}", 0) + 1
     except Exception as e:  # noqa
         bad("save_or_load_raises", exc=repr(e)[:300])
         return {"evals": 1, "nontrivial": True, "sig": str(desc) + str(case["idx"]), "violations": viol, "counters": counters}
     counters["files"] += 1
     try:
-        compare_loaded(ds, results, cfg, bad, counters)
+        try:
+            compare_loaded(ds, results, cfg, bad, counters)
+        except (OSError, RuntimeError) as e_:   # the loaded set can no longer be read
+            bad("loaded_set_unreadable_after_the_path_changed", exc=f"{type(e_).__name__}: {str(e_)[:200]}", after_load=after_load)
+        finally:
+            os.chdir(home_)
     except (KeyError, IndexError, ValueError) as e:  # a label, variable or dimension the saved set has is missing from what was loaded
         bad("loaded_dataset_lacks_labels_of_the_saved_set", exc=f"{type(e).__name__}: {str(e)[:200]}")
     finally:
